@@ -515,14 +515,13 @@ def guard_repair_layout(doc: dict, layout: tuple) -> bool:   # F01f: add_import'
 #                executable guard on (document, layout))
 # conjunct indices (Coq bit = index+1): 0 c_parses, 1 c_closed, 2 c_acyclic, 3 c_no_str_or, 4 c_no_shadow,
 #                                       5 c_no_ancestor_names, 6 c_paths, 7 c_static
+# fixed in /repo (their corpus witnesses stay and must now import cleanly): F01e 0981866, F20a 4164990
 FINDINGS: dict[str, tuple] = {
     "F01a": (lambda c, m, f: c == "ImportError" and "partially initialized module" in m and "/models/" in m, 2, guard_ref_cycle),
     "F01b": (lambda c, m, f: c == "TypeError" and "unsupported operand type(s) for |: 'str' and 'NoneType'" in m, 3, guard_direct_self_ref),
     "F01c": (lambda c, m, f: c == "TypeError" and "unsupported operand type(s) for |: 'NoneType' and 'NoneType'" in m, 4, guard_shadowing_property),
-    "F01e": (lambda c, m, f: c == "IndentationError" and f.endswith("mocks/mock_client.py"), 0, guard_no_ops),
     "F06d": (lambda c, m, f: c == "ImportError" and re.search(r"cannot import name 'Error[13]\d\d' from '[\w.]*core'", m) is not None, 7, guard_non_error_status),
     "F13b": (lambda c, m, f: c == "SyntaxError" and "duplicate argument" in m and f.endswith("mocks/mock_client.py"), 0, guard_case_variant_tags),
-    "F20a": (lambda c, m, f: c == "SyntaxError" and "invalid syntax" in m, 0, guard_keyword_schema_name),
     "F04c": (lambda c, m, f: c == "SyntaxError" and "duplicate argument" in m and "/endpoints/" in f, 0, guard_duplicate_param),
     "F01f": (lambda c, m, f: c == "ModuleNotFoundError" and "No module named" in m and "/models/" not in f, 1, guard_repair_layout),
     "F01g": (lambda c, m, f: c == "SyntaxError" and "'return' with value in async generator" in m and "endpoints/" in f, 0, guard_stream_plus_body),
